@@ -377,6 +377,17 @@ def chk_purity(T, v, M, rng):
         return out, n
     if snapshot(spec) != s_spec0:
         out.append(fail('purity', T, v, 'decoding changed the guiding type object'))
+    # ... the native codec as well (python tree -> value object under the same guiding type)
+    if no_any(T):
+        try:
+            from pyasn1.codec.native import encoder as ne_, decoder as nd_
+            nd_.decode(ne_.encode(val), asn1Spec=spec)
+            nd_.decode(bridge.to_native_py(T, v), asn1Spec=spec)
+        except Exception:
+            pass
+        if snapshot(spec) != s_spec0:
+            out.append(fail('purity', T, v, 'native decoding changed the guiding type object'))
+            return out, n
     if T['k'] in x690.CONSTRUCTED or T['k'] == 'CHOICE':
         n += 1
         if r1 is r2 or r1 is spec:
